@@ -100,6 +100,9 @@ def gen_stalls(rng, funcs, p=0.3):
     if rng.random() < 0.5:
         return {'stall': [rng.choice([0.3, 0.6]), rng.choice([0.02, 0.1, 0.4])], 'line_p': rng.choice([0.005, 0.02]), 'points': rng.choice([4, 8])}
     f = rng.choice(funcs)
+    if rng.random() < 0.35:
+        # one deep change point: the thread that reaches one given line of the function sits there for a long while
+        return {'focus_stall': [f, 1.0, rng.choice([0.05, 0.2, 0.5]), rng.randrange(1, 36), rng.choice([1, 2, 4])]}
     if len(funcs) > 1 and rng.random() < 0.3:
         f = sorted(rng.sample(funcs, 2))
     return {'focus_stall': [f, rng.choice([0.05, 0.15, 0.3]), rng.choice([0.01, 0.05, 0.2])]}
